@@ -103,7 +103,7 @@ func (ex *Exec) doCall(instr ssa.Instruction, c *ssa.CallCommon, pos token.Pos) 
 		if b, ok := c.Value.(*ssa.Builtin); ok {
 			ex.fireAnchorsBefore("call", b.Name(), c, args, pos)
 			res := ex.builtin(b, c, args, pos)
-			ex.fireAnchors("call", b.Name(), args, res, pos)
+			ex.fireAnchorsCall("call", b.Name(), c, args, res, pos)
 			return res
 		}
 		fn = ex.val(c.Value)
@@ -146,7 +146,7 @@ func (ex *Exec) callValue(instr ssa.Instruction, c *ssa.CallCommon, fn Value, ar
 		}
 	}
 	_ = sig
-	ex.fireAnchors("call", name, args, res, pos)
+	ex.fireAnchorsCall("call", name, c, args, res, pos)
 	return res
 }
 
@@ -333,6 +333,15 @@ func (ex *Exec) applyContract(fc *FuncContract, key string, names []string, typs
 	pre := ex.st.clone()
 	env.old = pre
 	ptxt := ex.posString(pos)
+	// the callee's ghost variables are existential at the call site
+	for _, g := range fc.Ghosts {
+		srt := specSort(g.Type, ex)
+		t := tInt
+		if srt == SBool {
+			t = tBool
+		}
+		env.vars[g.Name] = TV{Sc{ex.vc.Fresh("cg."+g.Name, srt)}, t}
+	}
 	for i, r := range fc.Requires {
 		g := ex.evalBool(r.E, ex.st, env)
 		ex.vc.Oblige("pre", fmt.Sprintf("%s/%s", key, clauseName(r, i)), ex.st.pc, g, ptxt)
@@ -413,19 +422,8 @@ func (ex *Exec) evalLoc(e Expr, st *State, env *Env) []modItem {
 		}
 		return ex.locOfPtr(p, st)
 	case ESel:
-		v := ex.eval(x.X, st, env)
-		if pt, ok := v.T.Underlying().(*types.Pointer); ok {
-			p := v.V.(PtrV)
-			sty := pt.Elem().Underlying().(*types.Struct)
-			idx, _ := fieldIndex(sty, x.Name)
-			if idx == nil {
-				panic(unsupported("modifies: no field " + x.Name))
-			}
-			np := p
-			np.Path = append(append([]int(nil), p.Path...), idx...)
-			return ex.locOfPtr(np, st)
-		}
-		panic(unsupported("modifies: field of non-pointer"))
+		p, _ := ex.placeOf(x, st, env)
+		return ex.locOfPtr(p, st)
 	case EIndex:
 		v := ex.eval(x.X, st, env)
 		switch s := v.V.(type) {
@@ -597,3 +595,58 @@ func parsePath(s string) []int {
 	return out
 }
 
+
+// placeOf resolves an lvalue expression (x.f, x.f.g, *p) to the location it denotes.
+func (ex *Exec) placeOf(e Expr, st *State, env *Env) (PtrV, types.Type) {
+	switch x := e.(type) {
+	case EStar:
+		v := ex.eval(x.X, st, env)
+		p, ok := v.V.(PtrV)
+		if !ok {
+			panic(unsupported("place: * of non-pointer"))
+		}
+		return p, typeAtPath(p.Root, p.Path)
+	case ESel:
+		// base is a pointer value, or itself a place of struct type
+		var base PtrV
+		var bt types.Type
+		if inner, ok := x.X.(ESel); ok {
+			// try as place first when the inner selector denotes a struct-typed field
+			func() {
+				defer func() {
+					if r := recover(); r != nil {
+						if _, ok := r.(unsupported); !ok {
+							panic(r)
+						}
+					}
+				}()
+				v := ex.eval(inner, st, env)
+				if _, isPtr := v.T.Underlying().(*types.Pointer); isPtr {
+					base, bt = v.V.(PtrV), v.T.Underlying().(*types.Pointer).Elem()
+				}
+			}()
+			if bt == nil {
+				base, bt = ex.placeOf(inner, st, env)
+			}
+		} else {
+			v := ex.eval(x.X, st, env)
+			pt, ok := v.T.Underlying().(*types.Pointer)
+			if !ok {
+				panic(unsupported("place: selector base is not a pointer"))
+			}
+			base, bt = v.V.(PtrV), pt.Elem()
+		}
+		sty, ok := bt.Underlying().(*types.Struct)
+		if !ok {
+			panic(unsupported("place: field of non-struct"))
+		}
+		idx, ft := fieldIndex(sty, x.Name)
+		if idx == nil {
+			panic(unsupported("place: no field " + x.Name))
+		}
+		np := base
+		np.Path = append(append([]int(nil), base.Path...), idx...)
+		return np, ft
+	}
+	panic(unsupported(fmt.Sprintf("place: unsupported lvalue %v", e)))
+}
